@@ -23,6 +23,12 @@ CONFIGS = {
     ('aperture 3 endpoints, closing a departing member\'s channel fails once', {'kind': 'aperture', 'n': 3, 'min_size': 2,
                                                                                 'ops': ['D', 'C', 'Join', 'Leave', 'LeaveX'],
                                                                                 'max_out': 2, 'max_notifications': 4}, 6),
+    ('heap, the first load of the member list fails with an Exception', {'kind': 'heap', 'n': 2, 'extra': 1, 'load_fails': 'exception',
+                                                                        'ops': ['D', 'C', 'Adv', 'Join', 'Leave'], 'advs': [2], 'notifier': True,
+                                                                        'max_out': 2, 'max_notifications': 2}, 5),
+    ('aperture, the first load of the member list fails with a BaseException (gevent.Timeout)',
+     {'kind': 'aperture', 'n': 2, 'extra': 1, 'min_size': 1, 'load_fails': 'base', 'ops': ['D', 'C', 'Adv', 'Join', 'Leave'], 'advs': [2],
+      'notifier': True, 'max_out': 2, 'max_notifications': 2}, 5),
     ('heap 3 endpoints addressed by a named additional endpoint', {'kind': 'heap', 'n': 2, 'extra': 1, 'ops': NOTIF, 'dup_ops': True,
                                                                    'endpoint_name': 'thrift', 'max_out': 2, 'probe': True}, 6),
     ('heap notifications during loading', {'kind': 'heap', 'n': 2, 'extra': 1, 'ops': ['Join', 'Leave', 'Gate', 'D', 'C'],
